@@ -1111,18 +1111,6 @@ class Searcher:
 
     def mutate(self, c, label, dec, f, enc, fraction=1.0, sk=None):
         K = self.I.keys
-        regions = None
-        if sk is not None:
-            # where the key material itself sits in the encoding: a mutation OUTSIDE these bytes (a length byte, a tag, a
-            # version, an OID ...) that is accepted must not silently give ANOTHER key
-            L = len(sk.to_string())
-            x, y = int(sk.verifying_key.pubkey.point.x()), int(sk.verifying_key.pubkey.point.y())
-            regions = []
-            for blob, before in ((sk.to_string(), 0), (x.to_bytes(L, "big"), 1), (y.to_bytes(L, "big"), 0)):
-                at = enc.find(blob)
-                while at >= 0:
-                    regions.append((at - before, at + len(blob)))
-                    at = enc.find(blob, at + 1)
         idx = list(range(len(enc)))
         if fraction < 1.0:
             head = idx[:12]
@@ -1137,20 +1125,18 @@ class Searcher:
                 if v != enc[i]:
                     m = enc[:i] + bytes([v]) + enc[i + 1:]
                     res = self.probe(dec, f, m, "any", "mutation %s at %d of %s" % (name, i, label), c.name)
-                    if res is not None and regions and not any(a <= i < b for a, b in regions):
-                        changed = None
-                        if isinstance(res, K.SigningKey) and res.curve == sk.curve and \
-                                res.privkey.secret_multiplier != sk.privkey.secret_multiplier:
-                            changed = "another private key (%x)" % res.privkey.secret_multiplier
-                        elif isinstance(res, K.VerifyingKey) and res.curve == sk.curve and \
-                                (int(res.pubkey.point.x()), int(res.pubkey.point.y())) != \
-                                (int(sk.verifying_key.pubkey.point.x()), int(sk.verifying_key.pubkey.point.y())):
-                            changed = "another public point"
-                        if changed:
-                            self.fail("mutation-outside-key-changes-key:%s" % dec,
+                    if res is not None and sk is not None and isinstance(res, K.SigningKey) and res.curve == sk.curve and \
+                            res.privkey.secret_multiplier != sk.privkey.secret_multiplier:
+                        # "extended encodings are always rejected": the privateKey OCTET STRING of the accepted input must
+                        # not be LONGER than the curve's scalar (shorter strings are left-padded by design; a change inside
+                        # the key bytes legitimately gives another key)
+                        L = len(sk.to_string())
+                        at = enc.find(sk.to_string())
+                        if at >= 2 and m[at - 2] == 0x04 and m[at - 1] < 0x80 and m[at - 1] > L:
+                            self.fail("extended-private-key-accepted:%s" % dec,
                                       {"decoder": dec, "curve": c.name, "input": m, "how": "mutation %s at %d of %s" % (name, i, label)},
-                                      "a single-byte change outside the key bytes (offset %d: %02x -> %02x) is accepted and decodes to %s"
-                                      % (i, enc[i], v, changed))
+                                      "privateKey OCTET STRING of %d bytes (scalar size %d) is accepted and decodes to another private key (%x)"
+                                      % (m[at - 1], L, res.privkey.secret_multiplier))
         return True
 
 
